@@ -128,6 +128,18 @@ fn replay_c04_verify_implies_valid() {
         // the qc's hash is part of the block digest: altering the qc invalidates the block signature as well, except when the hash is kept
         if blk.verify(&committee).is_ok() { failures.push(format!("Block [{}] accepted by Block::verify", what)); }
     }
+    // a certificate that merely LOOKS like the genesis QC (zero hash) but names another round, or carries no signatures, is not the
+    // genesis QC: blocks and timeouts embedding it must be rejected
+    for round in [1u64, 4, 50] {
+        let fake = QC { hash: Digest::default(), round, votes: Vec::new() };
+        let blk = Block::new_from_key(fake.clone(), *pk0, round + 1, Vec::new(), sk0);
+        if blk.verify(&committee).is_ok() { failures.push(format!("Block embedding an unsigned QC with the zero hash and round {} accepted by Block::verify", round)); }
+        let to = Timeout::new_from_key(fake.clone(), round + 1, *pk0, sk0);
+        if to.verify(&committee).is_ok() { failures.push(format!("Timeout embedding an unsigned QC with the zero hash and round {} accepted by Timeout::verify", round)); }
+        if fake == QC::genesis() { failures.push(format!("an unsigned QC with the zero hash and round {} compares equal to the genesis QC", round)); }
+    }
+    let fake = QC { hash: Digest([1u8; 32]), round: 0, votes: Vec::new() };
+    if fake == QC::genesis() { failures.push("a QC of round 0 with a non-zero hash compares equal to the genesis QC".into()); }
     // a block that directly extends its QC but carries a junk TC must be rejected too
     let direct = Block::new_from_key(valid_qc(hash.clone(), 4, &[0, 1, 2]), *pk0, 5, Vec::new(), sk0);
     let junk = Block { tc: Some(TC { round: 0, votes: Vec::new() }), ..direct.clone() };
@@ -261,6 +273,23 @@ fn replay_c20_digests_bind_content() {
     if (Vote { round: 8, ..v.clone() }).digest() == v.digest() || (Vote { hash: d(5), ..v.clone() }).digest() == v.digest() { failures.push("votes differing in round or hash share a digest".into()); }
     let t = Timeout::new_from_key(base_qc.clone(), 7, *pk0, sk0);
     if (Timeout { round: 8, ..t.clone() }).digest() == t.digest() || (Timeout { high_qc: QC { round: 4, ..base_qc.clone() }, ..t.clone() }).digest() == t.digest() { failures.push("timeouts differing in round or high-QC round share a digest".into()); }
+    // every single byte of every digest-typed field and of the author key is bound (first, middle, LAST byte alike)
+    for pos in 0..32usize {
+        let bump = |x: &Digest| { let mut y = x.0; y[pos] ^= 0x5a; Digest(y) };
+        let mut author = base.author.0; author[pos] ^= 0x5a;
+        let byte_variants: Vec<(&str, Block)> = vec![
+            ("payload[0]", Block { payload: vec![bump(&d(1)), d(2)], ..base.clone() }),
+            ("payload[1]", Block { payload: vec![d(1), bump(&d(2))], ..base.clone() }),
+            ("parent hash", Block { qc: QC { hash: bump(&base_qc.hash), ..base_qc.clone() }, ..base.clone() }),
+            ("author", Block { author: PublicKey(author), ..base.clone() }),
+        ];
+        for (what, b) in byte_variants {
+            if b.digest() == base.digest() { failures.push(format!("two blocks differing only in byte {} of [{}] have the same digest", pos, what)); }
+        }
+        if (Vote { hash: bump(&v.hash), ..v.clone() }).digest() == v.digest() { failures.push(format!("two votes differing only in byte {} of the block hash have the same digest", pos)); }
+        let q = QC { hash: d(4), round: 7, votes: Vec::new() };
+        if (QC { hash: bump(&q.hash), ..q.clone() }).digest() == q.digest() { failures.push(format!("two QCs differing only in byte {} of the block hash have the same digest", pos)); }
+    }
     // kinds never coincide (same numeric content)
     for _ in 0..50 {
         let r = rng.next_u64() % 10;
